@@ -61,6 +61,7 @@ pub fn profile(prop: u32) -> Prof {
         },
         2 => Prof {
             subjects: vec![(3, UB), (5, UU), (3, OB), (4, OU)],
+            huge: 1,
             big: 20,
             ..base
         },
@@ -90,10 +91,12 @@ pub fn profile(prop: u32) -> Prof {
             ..base
         },
         9 => Prof {
+            huge: 2,
             subjects: vec![(2, BU), (2, BO), (2, TBU), (2, TBO), (2, FE)],
             ..base
         },
         10 => Prof {
+            huge: 1,
             subjects: vec![(2, BU), (2, BO), (2, TBU), (2, TBO), (3, FE)],
             fe_zero: true,
             ..base
@@ -121,6 +124,7 @@ pub fn profile(prop: u32) -> Prof {
             ..base
         },
         15 => Prof {
+            huge: 1,
             subjects: vec![(4, UB), (4, OB), (3, OU), (3, UU), (2, MB), (1, MU)],
             ..base
         },
@@ -389,11 +393,13 @@ fn cfg_for(subj: Subj, prof: &Prof, big: bool) -> BoxedStrategy<Cfg> {
         }
         Subj::JA | Subj::TJA => (
             vec(plan(PlanCtx { p_ready: 40, can_panic: true, ..pc_f }), if big { 0usize..140 } else { 0usize..12 }),
-            prop_oneof![2 => Just(2u8), 1 => Just(3u8)],
+            prop_oneof![3 => Just(2u8), 1 => Just(3u8), 1 => Just(4u8)],
+            prop::bool::weighted(0.2),
         )
-            .prop_map(|(initial, ctor)| Cfg {
+            .prop_map(|(initial, ctor, inexact_iter)| Cfg {
                 ctor,
                 initial,
+                inexact_iter,
                 ..Cfg::default()
             })
             .boxed(),
@@ -423,12 +429,17 @@ fn free_shape(subj: Subj, prof: &Prof, big: bool) -> BoxedStrategy<Case> {
     } else {
         vec(o, 0..max_ops).boxed()
     };
-    (cfg_for(subj, prof, big), ops, 0u8..4)
-        .prop_map(move |(cfg, ops, repolls)| Case {
-            subj,
-            cfg,
-            ops,
-            repolls,
+    (cfg_for(subj, prof, big), ops, 0u8..4, prop::bool::weighted(0.25))
+        .prop_map(move |(mut cfg, ops, repolls, inexact)| {
+            if cfg.ctor == 2 && !subj.is_join() {
+                cfg.inexact_iter = inexact;
+            }
+            Case {
+                subj,
+                cfg,
+                ops,
+                repolls,
+            }
         })
         .boxed()
 }
